@@ -794,7 +794,7 @@ type cfgStep struct {
 type cfgProbe struct {
 	mu       sync.Mutex
 	failExec bool
-	big      bool // some step sets the retry budget beyond 32 bits
+	big      bool           // some step sets the retry budget beyond 32 bits
 	called   map[string]int // phase -> id of the function that ran last
 	attempts int32
 	inflight int32
